@@ -31,13 +31,24 @@
        [C08_nested_tick_is_sim]): the fold of Model/Sim.v over a level, read as a trace of that level's ticker, has
        everything the comparison of two ticks of a level needs, so -- by the same induction on the depth -- every
        run of (4) ends like [on_tick_level] / [xsim_from_start], interrupts at any depth included (Proofs/SimNTP.v).
-   PARTIAL: at the granularity of the ticker's answers; the bus below (per-topic queues, latency) is explored on the
-   delaying bus (codes 21/22).  Besides the theorems the schedule-explicit models are evaluated under two strategies
-   against Model/Sim.v on every generated case (flat: Model/NSim.v, code 23; nested: Model/NNSim.v, code 24).
+   (6) Below the ticker's answers: the MESSAGES of a level ([C08_message_level_is_sim]).  A component is handed its
+       Input at one moment -- it computes then, in the state as it is then -- and its Output reaches the scheduler at a
+       later one -- only then does the ticker see the answer and is the callback registered; the Inputs and Outputs of the
+       components of a level are delivered in ANY order (several components computing before any answer is seen,
+       answers overtaking one another), at every level and depth, interrupts at any depth between the ticks.  Every
+       such run ends like Model/Sim.v: the footprint of a component is untouched between the two moments, so such
+       a run of a level has everything the comparison of two ticks needs (Proofs/MsgLevelP.v).  The answer-order
+       runs of (4) are among them ([C08_answer_order_runs_are_message_level]).
+   PARTIAL: the tick of a system simulation is one event of the enclosing level in (6) (its own level's messages are
+   not interleaved with the enclosing level's), interrupts arrive between master ticks (an interrupt racing with a
+   running tick is the master machine's subject, C04/C07); per-topic queues with latency and acknowledging brokers
+   are explored on the delaying bus (codes 21/22).  Besides the theorems the schedule-explicit models are evaluated
+   under two strategies against Model/Sim.v on every generated case (flat: Model/NSim.v, code 23; nested:
+   Model/NNSim.v, code 24).
    Property theorems only. *)
 From TV Require Import Base Model.Wiring Model.Ticker Model.Component Model.Sim Model.SimTime Model.Inline Model.NSim Oracle.SimCheck
   Proofs.WiringP Proofs.TickerP Proofs.SimP Proofs.EqvP Proofs.ParDevP Proofs.InlineP Proofs.InlineScopeP Proofs.InlineLatestP Proofs.ScheduleP Proofs.SimTraceP
-  Model.Interrupts Model.NNSim Proofs.FrameP Proofs.NScheduleP Proofs.NDetP Proofs.NDetScopeP Proofs.NDetXP Proofs.SimNTP.
+  Model.Interrupts Model.NNSim Proofs.FrameP Proofs.NScheduleP Proofs.NDetP Proofs.NDetScopeP Proofs.NDetXP Proofs.SimNTP Proofs.MsgLevelP.
 
 (* two arbitrary runs of the same tick (same wiring, time, roots), possibly incomplete and
    under different answer orders, whose answers are given by one deterministic function of
@@ -340,4 +351,52 @@ Proof.
   split; [reflexivity|]. split; [|vm_compute; reflexivity].
   destruct (xnrun_from_start par_cfg (table_dev par_tab) pick_last 100 3 0 par_xscript) as [[sA obA]|] eqn:E; [|vm_compute in E; discriminate].
   exists sA, obA. apply (C08_nested_strategies_are_schedules_interrupts _ _ _ _ _ _ _ _ _ E).
+Qed.
+
+(* (6) message-level schedules: Inputs and Outputs of the components of every level delivered in any order *)
+Theorem C08_message_level_is_sim : forall cfg (devf : devfun) f,
+  subtree_okb cfg (S f) top = true ->
+  (forall c n t i, NoDup (keys (fst (devf c n t i)))) ->
+  (forall c n t i i', NoDup (keys i) -> NoDup (keys i') -> eqv i i' -> devf c n t i = devf c n t i') ->
+  forall initial script sA obA,
+    mxrun cfg devf f initial script sA obA ->
+    (forall d, obs_rel (dev_obs d obA) (dev_obs d (snd (xsim_from_start cfg devf f initial script)))) /\
+    NSR (devices_below cfg (S f) top) (levels_below cfg (S f) top) sA (fst (xsim_from_start cfg devf f initial script)).
+Proof.
+  intros cfg devf f Hok Hnd Hext initial script sA obA HA.
+  destruct (mxrun_is_sim cfg devf Hnd Hext f initial script sA obA (subtree_okb_sound _ _ _ Hok) HA) as [H1 H2].
+  split; assumption.
+Qed.
+
+(* ... of one tick of one system simulation *)
+Theorem C08_message_level_tick_is_sim : forall cfg (devf : devfun) f lv,
+  subtree_okb cfg f lv = true ->
+  (forall c n t i, NoDup (keys (fst (devf c n t i)))) ->
+  (forall c n t i i', NoDup (keys i) -> NoDup (keys i') -> eqv i i' -> devf c n t i = devf c n t i') ->
+  forall time chgA chgB sA sB sA' outA caA obA,
+    NoDup (keys chgA) -> NoDup (keys chgB) -> eqv chgA chgB ->
+    NSR (devices_below cfg f lv) (levels_below cfg f lv) sA sB ->
+    MNT cfg devf f lv time chgA sA sA' outA caA obA ->
+    let '(sB', outB, caB, obB) := on_tick_level cfg devf f lv time chgB sB in
+    eqv outA outB /\ caA = caB /\
+    NSR (devices_below cfg f lv) (levels_below cfg f lv) sA' sB' /\
+    (forall d, obs_rel (dev_obs d obA) (dev_obs d obB)).
+Proof.
+  intros cfg devf f lv Hok Hnd Hext time chgA chgB sA sB sA' outA caA obA HnA HnB Hchg Hs HA.
+  destruct (on_tick_level cfg devf f lv time chgB sB) as [[[sB' outB] caB] obB] eqn:E.
+  destruct (MNT_sim cfg devf Hnd Hext f lv (subtree_okb_sound _ _ _ Hok) time chgA chgB sA sB sA' sB' outA outB caA caB obA obB HnA HnB Hchg Hs HA E)
+    as [H1 [_ [_ [H2 [H3 H4]]]]].
+  split; [exact H1|]. split; [exact H2|]. split; [exact H3 | exact H4].
+Qed.
+
+Theorem C08_answer_order_runs_are_message_level : forall cfg (devf : devfun) f initial script s ob,
+  xnrun cfg devf f initial script s ob -> mxrun cfg devf f initial script s ob.
+Proof. intros. apply xnrun_mxrun. assumption. Qed.
+
+(* non-vacuity: the runs of the example above are message-level runs *)
+Example C08_message_level_example :
+  exists sA obA, mxrun par_cfg (table_dev par_tab) 3 0 par_xscript sA obA.
+Proof.
+  destruct (xnrun_from_start par_cfg (table_dev par_tab) pick_last 100 3 0 par_xscript) as [[sA obA]|] eqn:E; [|vm_compute in E; discriminate].
+  exists sA, obA. apply C08_answer_order_runs_are_message_level. apply (C08_nested_strategies_are_schedules_interrupts _ _ _ _ _ _ _ _ _ E).
 Qed.
